@@ -20,6 +20,18 @@ CHECKS = {
         "exhaustive enumeration + Hypothesis value generation against a hand-written table oracle",
         "DESIGN.md 4/C18",
     ),
+    "C03": (
+        "exploration",
+        "Complete enumeration of the finite field space (every DATA control-field combination x payload lengths x "
+        "adversarial bodies, all ACK/NAK field values, RST, all 256 RSTACK/ERROR codes, all 256 control bytes for "
+        "classification, every 1- and 2-bit corruption of short frames of each type) plus Hypothesis-generated payloads, "
+        "each compared in both directions with an independently written bitwise encoder/decoder anchored on the frames "
+        "printed in UG101. Bytes are observed at transport.write() including one real send_data on a virtual-time loop.",
+        "Trusted: vlib/refash.py (self-tested against UG101 literals at setup). Payload bodies beyond the listed "
+        "adversarial ones are sampled, not enumerated.",
+        "exhaustive enumeration + Hypothesis generation against an independent reference codec (differential, both directions)",
+        "DESIGN.md 4/C03",
+    ),
 }
 
 NOT_YET = "check not built yet in this session (planned, see DESIGN.md section 4)"
